@@ -171,7 +171,8 @@ Section Elab.
     | SVar x =>
         match lookup_b x G with
         | Some (BPure p) => Some p
-        | Some _ => None
+        | Some (BOp _) => Some (PRaw x)          (* an operand handle passed to a plugin macro *)
+        | Some (BEff _) => None
         | None => if is_param x then Some (PParam x) else Some (PRaw x)
         end
     | SApp "DUP" [a] => elab a
@@ -210,6 +211,7 @@ Section Elab.
         | _, _ =>
           if mem_str h macro_heads then option_map (PApp h) (sequence (map elab args)) else None
         end end end
+    | SAddr x => Some (PRaw x)
     | SInt z => Some (PRaw "int")
     | SArrow a f => Some (PRaw (a ++ "->" ++ f))
     | SStr s => Some (PRaw s)
